@@ -88,13 +88,29 @@ pub fn to_lossy_bytes(input: &str) -> Cow<[u8]> {
     // a succulent buffer for reuse, we'll zero it before each use.
     // all utf-8 characters are no longer than 4 bytes.
     let mut buf = [0; 4];
+    // an unescaped caret was just written: `^^8` is an escaped caret followed by an 8, not a ^8
+    let mut pending_caret = false;
 
     'outer: for c in input.chars() {
         // all codepages share ascii values
         if c.is_ascii() {
+            if pending_caret {
+                // LFS goes back to the default codepage when it reads ^8 (but not ^^8): follow it
+                if (c as u8).propagate_lfs_codepage() {
+                    current_control = DEFAULT_CODEPAGE;
+                    current_encoding = current_control
+                        .as_lfs_codepage()
+                        .unwrap_or_else(|| unreachable!());
+                }
+                // whatever followed the caret, including a second caret, completes the sequence
+                pending_caret = false;
+            } else {
+                pending_caret = c.is_lfs_control_char();
+            }
             output.push(c as u8);
             continue;
         }
+        pending_caret = false;
 
         buf.fill(0);
         let char_as_bytes = c.encode_utf8(&mut buf);
